@@ -385,7 +385,13 @@ def observe(t, exp):
             "operation": {
                 "name": op.name,
                 "type": op.type,
-                "params": {k: copy.deepcopy(op.params.get(k, "<missing>")) for k in want_params},
+                # the keys the model wrote, plus every key the file did not write (the loader keeps the operation's own JSON keys and
+                # fills in include-in-reporting; anything else is a parameter the file never gave to this operation)
+                "params": {
+                    **{k: copy.deepcopy(op.params.get(k, "<missing>")) for k in want_params},
+                    **{k: copy.deepcopy(v) for k, v in op.params.items()
+                       if k not in want_params and k not in ("name", "operation-type", "meta", "param-source", "include-in-reporting")},
+                },
                 "include_in_reporting": op.include_in_reporting,
             },
             "tags": list(x.tags),
